@@ -6,6 +6,7 @@
 size_t probe_regs(const sigc::trackable&) { return (size_t)-1; }
 long probe_list(const sigc::trackable&) { return -2; }
 int probe_exec(const sigc::signal_base&) { return -2; }
+int probe_slot(const sigc::slot_base& s) { return s ? (s.empty() ? 1 : 2) : 0; }
 #else
 #include <list>
 #include <memory>
@@ -34,5 +35,11 @@ long probe_list(const sigc::trackable& t)
 int probe_exec(const sigc::signal_base& s)
 {
   return s.impl_ ? (int)s.impl_->exec_count_ : -1;
+}
+// 0: rep_ == nullptr, 1: invalidated (call_ == nullptr), 2: valid; +4 when the rep has a parent
+int probe_slot(const sigc::slot_base& s)
+{
+  if (!s.rep_) return 0;
+  return (s.rep_->call_ ? 2 : 1) + (s.rep_->parent_ ? 4 : 0);
 }
 #endif
